@@ -30,7 +30,22 @@ def section(notes, *keys):
   return ''
 
 
+def refresh():
+  """_incoming is gone after the first lay-out: only fold result.json into meta.json."""
+  for sid in sorted(os.listdir(os.path.join(HERE, 'seeded'))):
+    d = os.path.join(HERE, 'seeded', sid)
+    if not os.path.exists(os.path.join(d, 'meta.json')):
+      continue
+    meta = json.load(open(os.path.join(d, 'meta.json')))
+    if os.path.exists(os.path.join(d, 'result.json')):
+      meta['last_run'] = json.load(open(os.path.join(d, 'result.json')))
+    json.dump(meta, open(os.path.join(d, 'meta.json'), 'w'), indent=1)
+  print('refreshed')
+
+
 def main():
+  if not os.path.isdir(INC):
+    return refresh()
   for prop in sorted(os.listdir(INC)):
     for m in sorted(os.listdir(os.path.join(INC, prop))):
       src = os.path.join(INC, prop, m)
